@@ -205,6 +205,11 @@ class BVLower:
                 return pre, '0'
             arg = A[0] if len(A) == 1 else '(concat %s)' % ' '.join(A)
             return pre, '(bv2nat %s)' % arg
+        if op == 'catbe':
+            if not A:
+                return pre, bv(0, w)
+            arg = A[0] if len(A) == 1 else '(concat %s)' % ' '.join(A)
+            return pre, arg if 8 * len(A) == w else '((_ zero_extend %d) %s)' % (w - 8 * len(A), arg)
         if op == 'intconst':
             v = int(n['v'])
             return pre, str(v) if v >= 0 else '(- %d)' % -v
@@ -303,7 +308,7 @@ class Eval:
         if op == 'sha256':
             import hashlib
             return int.from_bytes(hashlib.sha256(bytes(V)).digest(), 'big')
-        if op == 'os2ip':
+        if op in ('os2ip', 'catbe'):
             return int.from_bytes(bytes(V), 'big')
         if op == 'intconst':
             return int(n['v'])
